@@ -49,7 +49,11 @@ class Parser(object):
                   tabmodule=self.tabmodule)
 
     def parse(self, input):
-        return self.yacc.parse(input)
+        # Without an explicit lexer ply lexes through the module-global "last lexer
+        # built", which every parser instance (and thread) would share.  A clone per
+        # call also keeps a nested parse on this same parser from resetting the
+        # token stream of the one in progress.
+        return self.yacc.parse(input, lexer=self.lex.clone())
 
     def run(self):
         while 1:
